@@ -172,6 +172,7 @@ def f60_shape(segs):
     if j >= len(segs) or segs[j] != ("(", "punct"):
         return False
     rest = segs[j:]
-    has_incdec = any(c == "op:incdec" for _, c in rest)
+    n_incdec = sum(1 for _, c in rest if c == "op:incdec")
     has_comma = any(c == "op:comma" for _, c in rest)
-    return has_incdec and has_comma and segs[-1] == (";", "punct")
+    # one ++/-- and no comma parses (as an "assignment"); a comma cuts the statement, a second ++/-- is a "multiple assignment"
+    return n_incdec >= 1 and (has_comma or n_incdec >= 2) and segs[-1] == (";", "punct")
